@@ -93,7 +93,7 @@ func isNonFatalConfig(
 
 		divider(combination, quantity, distribution)
 
-		if !common.IsDistributionFilled(distribution) {
+		if !common.IsDistributionFilledFor(distribution, combination) {
 			return false
 		}
 	}
@@ -205,7 +205,7 @@ func isSuitableConfig(
 
 		divider(combination, quantity, distribution)
 
-		if !common.IsDistributionFilled(distribution) {
+		if !common.IsDistributionFilledFor(distribution, combination) {
 			return false
 		}
 
